@@ -391,26 +391,32 @@ theorem restoreBase_inv (files : Files) (c : Ckpt) : Inv (restoreBase files c) :
 theorem replay_inv : ∀ (recs : List Wal.Rec) (rots : List Nat) (s s' : State), Inv s →
     replay s recs rots = some s' →
     Inv s' ∧ s'.db.levels = s.db.levels ∧ s'.latest = s.latest ∧
-      ∃ news, s'.wal.entries = s.wal.entries ++ news ∧ news.map trip = recs.map trip := by
+      ∃ news, s'.wal.entries = s.wal.entries ++ news ∧ news.map trip = recs.map trip ∧
+        ∀ e ∈ news, s.db.seq < e.seq := by
   intro recs rots
   induction recs with
   | nil =>
     intro s s' hi h
     simp only [replay, Option.some.injEq] at h
     subst h
-    exact ⟨hi, rfl, rfl, [], by simp, rfl⟩
+    exact ⟨hi, rfl, rfl, [], by simp, rfl, by simp⟩
   | cons r rs ih =>
     intro s s' hi h
     simp only [replay] at h
     split at h
     · cases h
     · rename_i s1 h1
-      obtain ⟨hi1, hent, _, hlev, hlat⟩ := write_inv hi h1
-      obtain ⟨hi', hlev', hlat', news, hnews, htrip⟩ := ih s1 s' hi1 h
-      refine ⟨hi', by rw [hlev', hlev], by rw [hlat', hlat], wrec (s.db.seq + 1) r.del r.key r.val :: news, ?_, ?_⟩
+      obtain ⟨hi1, hent, hseq1, hlev, hlat⟩ := write_inv hi h1
+      obtain ⟨hi', hlev', hlat', news, hnews, htrip, hgt⟩ := ih s1 s' hi1 h
+      refine ⟨hi', by rw [hlev', hlev], by rw [hlat', hlat], wrec (s.db.seq + 1) r.del r.key r.val :: news, ?_, ?_, ?_⟩
       · rw [hnews, hent]; simp
       · simp only [List.map_cons, htrip, List.cons.injEq, and_true]
         cases hd : r.del <;> simp [trip, wrec, hd]
+      · intro e he
+        simp only [List.mem_cons] at he
+        rcases he with rfl | he
+        · simp [wrec]
+        · have := hgt e he; omega
 
 /-- a write is always possible in a state satisfying the invariant -/
 theorem write_enabled {s : State} (hi : Inv s) (del : Bool) (k v : Bytes) (rot : Bool) :
